@@ -124,6 +124,16 @@ def instances(tier):
     for root in ("inside", "notinside"):       # the same family written as an if-then-else term instead of a forking `if`
         out.append(dict(id="jump-ite-%s-k%d" % (root, 3 if q else 4), family="jump", scale="sym", root=root, k=3 if q else 4, tol="sym",
                         nvec=0, ite=True, budget=bq))
+    # ---- WIDE brackets (jump of unit height): the width is the concrete value 2^K * tol (K = 40 ... 72, default tolerance), the jump
+    # position a symbolic point of a window narrower than tol/8 placed at several places of the bracket: almost every comparison of
+    # the ~K halvings is decided for the whole window, so the long run stays a handful of paths.  The scalar and the vector solver.
+    for K in ((40, 66) if q else (40, 56, 62, 66, 72)):
+        for rho0 in (("3/10", "5/16") if q else ("3/10", "5/16", "1/3", "1/1024", "1023/1024")):
+            for ws in ((1,) if q else (1, -1)):
+                for nv in (0, 1):
+                    out.append(dict(id="jump-wide%s-K%d-rho%s-w%s" % ("-vec" if nv else "", K, rho0.replace("/", "_"), "pm"[ws < 0]), family="jump", scale="unit",
+                                    root="window", rho0=rho0, wideK=K, k=K, tol=None, nvec=nv, a=-0.25, wsign=ws, interval=True, bounds="shared",
+                                    budget=dict(bq, max_branches=20000)))
     # ---- vector solver against the scalar one (instances split by root position / bracket orientation for parallelism)
     if q:
         out.append(_vec("linear", ["any"], 3, budget=bq, interval=False))
@@ -357,6 +367,14 @@ def _bracket(c, inst, tol, suffix="", idx=0):
     else:
         c.assume(w != 0)
     K = float(2 ** inst["k"])
+    if inst.get("wideK"):
+        # concrete width (exactly 2^K * tol, sign per instance)
+        c.assume(c.eq(w, (1 if ws > 0 else -1) * K * tol))
+        wv = (1 if ws > 0 else -1) * K * tol
+        if c.symbolic:
+            from srx import core
+            return a, core.as_symreal(float(wv))
+        return a, np.float64(wv)
     c.assume(w <= K * tol)
     c.assume(w >= -K * tol)
     return a, w
@@ -375,6 +393,15 @@ def _rho(c, name, variant):
         c.assume(c.any([rho <= 0, rho >= 1]))
         c.assume(rho >= -4)
         c.assume(rho <= 5)
+    elif isinstance(variant, tuple) and variant[0] == "window":
+        lo = Fraction(variant[1])
+        hi = lo + Fraction(1, 2 ** (variant[2] + 3))       # window width * bracket width = tol/8
+        if c.symbolic:
+            c.assume(rho >= lo)
+            c.assume(rho <= hi)
+        else:
+            c.assume(c.le(float(lo), rho, 1))
+            c.assume(c.le(rho, float(hi), 1))
     elif variant == "end":
         c.assume(c.any([c.eq(rho, 0), c.eq(rho, 1)]))
     else:
@@ -398,6 +425,9 @@ def _make_fn(c, inst, a, w, idx=0, scale=None, root=None):
             s = float(scale)
         rho = _rho(c, "rho" + sfx, root)
         return Linear(c, s, a + rho * w)
+    if fam == "jump" and scale == "unit":
+        rho = _rho(c, "rho" + sfx, ("window", inst["rho0"], inst["wideK"]))
+        return Jump(c, 1.0, 1.0, a + rho * w)
     if fam == "jump":
         T = c.real("T" + sfx)
         lam = c.real("lam" + sfx)
